@@ -798,6 +798,11 @@ impl IgnoreBuilder {
         self.opts.ignore_case_insensitive = yes;
         self
     }
+
+    /// Whether ignore files are processed case insensitively.
+    pub(crate) fn is_ignore_case_insensitive(&self) -> bool {
+        self.opts.ignore_case_insensitive
+    }
 }
 
 /// Creates a new gitignore matcher for the directory given.
